@@ -543,7 +543,9 @@ func runC04(c *Ctx) {
 		c.Note("R4.5: %d worker roots (doUncached + analyzer Run functions), %d module functions reachable", len(roots), len(reach))
 		var fns []*ssa.Function
 		for fn := range reach {
-			fns = append(fns, fn)
+			if FuncInModule(fn) {
+				fns = append(fns, fn)
+			}
 		}
 		sort.Slice(fns, func(i, j int) bool { return fns[i].String() < fns[j].String() })
 		seen := map[string]bool{}
